@@ -300,6 +300,8 @@ def prop_lines(c, tag, entries, name):
         return []
     comps = [x for x in compositions(len(entries)) if len(x) <= 3]
     comp = comps[c.choice(f"group_{name}", len(comps))] if len(comps) > 1 else comps[0]
+    if len(comp) == 1 and len(entries) > 1 and c.flag(f"rev_{name}"):
+        entries = entries[::-1]            # all entries on one line, in descending atom order (the format does not ask for ascending order)
     lines, i = [], 0
     for part in comp:
         lines.append(v2000_prop_line(tag, entries[i:i + part]))
